@@ -20,6 +20,7 @@ import (
 	"fmt"
 	"math/rand"
 	"os"
+	"regexp"
 	"sort"
 	"strings"
 	"testing"
@@ -35,9 +36,12 @@ import (
 
 	"github.com/osmosis-labs/osmosis/osmomath"
 	osmoapp "github.com/osmosis-labs/osmosis/v31/app"
+	"github.com/osmosis-labs/osmosis/v31/app/apptesting"
 	cl "github.com/osmosis-labs/osmosis/v31/x/concentrated-liquidity"
 	wasmkeeper "github.com/CosmWasm/wasmd/x/wasm/keeper"
 	cltypes "github.com/osmosis-labs/osmosis/v31/x/concentrated-liquidity/types"
+	gammkeeper "github.com/osmosis-labs/osmosis/v31/x/gamm/keeper"
+	"github.com/osmosis-labs/osmosis/v31/x/gamm/pool-models/stableswap"
 	gammtypes "github.com/osmosis-labs/osmosis/v31/x/gamm/types"
 	lockupkeeper "github.com/osmosis-labs/osmosis/v31/x/lockup/keeper"
 	lockuptypes "github.com/osmosis-labs/osmosis/v31/x/lockup/types"
@@ -45,11 +49,39 @@ import (
 	sftypes "github.com/osmosis-labs/osmosis/v31/x/superfluid/types"
 	tfkeeper "github.com/osmosis-labs/osmosis/v31/x/tokenfactory/keeper"
 	tftypes "github.com/osmosis-labs/osmosis/v31/x/tokenfactory/types"
+	vpkeeper "github.com/osmosis-labs/osmosis/v31/x/valset-pref"
+	vptypes "github.com/osmosis-labs/osmosis/v31/x/valset-pref/types"
 )
 
 const badAddr = "osmo1notanaddress"
 
 var authDebug = os.Getenv("VERIF_AUTH_DEBUG") != ""
+var authReasons = os.Getenv("VERIF_AUTH_REASONS") != ""
+
+// the texts of the ownership / admin errors of the modules (statistics only, never the oracle)
+var authErrRe = regexp.MustCompile(`(?i)unauthorized|denom that already exists|not scaling factor governor|not lock owner|is not owner|not the owner|not owner of|does not match|owner mismatch|lock owner|not allowed to force unlock|NotPositionOwner`)
+var digitsRe = regexp.MustCompile(`osmo1[0-9a-z]+|[0-9]+`)
+
+func rejectReason(err error, noPanic bool) string {
+	if noPanic && err != nil && authErrRe.MatchString(err.Error()) {
+		return "auth"
+	}
+	return "other"
+}
+
+func shortErr(err error, noPanic bool) string {
+	if !noPanic {
+		return "panic"
+	}
+	if err == nil {
+		return "nil"
+	}
+	t := digitsRe.ReplaceAllString(err.Error(), "#")
+	if len(t) > 110 {
+		t = t[:110]
+	}
+	return t
+}
 
 type authEnv struct {
 	t    *testing.T
@@ -75,6 +107,13 @@ type authEnv struct {
 	lkSrv lockuptypes.MsgServer
 	clSrv cltypes.MsgServer
 	sfSrv sftypes.MsgServer
+	vpSrv vptypes.MsgServer
+	ssSrv stableswap.MsgServer
+
+	// set by the senders for the next exec (consumed there)
+	state string                      // life-cycle state of the addressed object (reject-reason statistics)
+	twin  func(ctx sdk.Context) error // the same message sent by the owner, run on a discarded branch
+	deleg map[string]bool             // engine's own record: addresses with a validator-set preference / delegation
 }
 
 func (e *authEnv) addr(n string) string {
@@ -165,6 +204,38 @@ func (e *authEnv) exec(module, msg, class string, authorised, strict bool, failK
 	if authDebug && !accepted && authorised {
 		fmt.Printf("DEBUG %s -> %v (panic=%v)\n", line, err, !okc)
 	}
+	state, twin := e.state, e.twin
+	e.state, e.twin = "", nil
+	if !authorised && !accepted {
+		// measurement only: is the ownership / admin guard what stopped this sender?
+		st := state
+		if st == "" {
+			st = "-"
+		}
+		e.o.Count(fmt.Sprintf("reject-reason.%s.%s.%s.%s", msg, class, st, rejectReason(err, okc)))
+		if authReasons && rejectReason(err, okc) == "other" {
+			fmt.Printf("REASON %s.%s.%s: %s\n", msg, class, st, shortErr(err, okc))
+		}
+		if twin != nil {
+			// the very same message from the owner, on a branch that is thrown away: would the message have
+			// gone through had only the sender been the owner?
+			tctx, _ := e.h.Ctx.CacheContext()
+			var terr error
+			tok := catch(func() { terr = twin(tctx) })
+			tr := "err"
+			if tok && terr == nil {
+				tr = "ok"
+			}
+			e.o.Count(fmt.Sprintf("twin-owner.%s.%s.%s", msg, st, tr))
+			if tr == "ok" {
+				// the sharp statistic: the message is executable as it stands, only the sender is wrong
+				e.o.Count(fmt.Sprintf("able-reject.%s.%s.%s.%s", msg, class, st, rejectReason(err, okc)))
+			}
+			if authReasons && tr == "err" {
+				fmt.Printf("TWIN %s.%s: %s\n", msg, st, shortErr(terr, tok))
+			}
+		}
+	}
 	if !authorised {
 		if accepted {
 			if failKey == "" {
@@ -192,6 +263,7 @@ func (e *authEnv) setup() {
 	e.real, e.name = map[string]string{}, map[string]string{}
 	e.base = nil
 	e.users = nil
+
 	for i := 0; i < 5; i++ {
 		n := fmt.Sprintf("u%d", i)
 		e.reg(n, sdk.AccAddress([]byte(fmt.Sprintf("authuser%d___________", i))[:20]))
@@ -237,6 +309,9 @@ func (e *authEnv) setup() {
 	e.lkSrv = lockupkeeper.NewMsgServerImpl(h.App.LockupKeeper)
 	e.clSrv = cl.NewMsgServerImpl(h.App.ConcentratedLiquidityKeeper)
 	e.sfSrv = sfkeeper.NewMsgServerImpl(h.App.SuperfluidKeeper)
+	e.vpSrv = vpkeeper.NewMsgServerImpl(h.App.ValidatorSetPreferenceKeeper)
+	e.ssSrv = gammkeeper.NewStableswapMsgServerImpl(h.App.GAMMKeeper)
+	e.deleg = map[string]bool{}
 }
 
 // ---------------------------------------------------------------- tokenfactory
@@ -331,8 +406,6 @@ func (e *authEnv) tfSend(w *tfWorld, kind string, sender string, canon string, c
 	if kind == "mint" || kind == "burn" || kind == "force" {
 		modBefore = e.modBalances(rd)
 	}
-	var run func(ctx sdk.Context) error
-	S := e.addr(sender)
 	amt := func(s string) sdk.Coin {
 		var v int64
 		fmt.Sscan(s, &v)
@@ -344,52 +417,72 @@ func (e *authEnv) tfSend(w *tfWorld, kind string, sender string, canon string, c
 	}
 	switch kind {
 	case "mint":
-		to := args[1]
-		addrs = []string{to}
-		if to == "-" {
+		addrs = []string{args[1]}
+		if args[1] == "-" {
 			addrs = []string{sender}
-		}
-		run = func(ctx sdk.Context) error {
-			_, err := e.tfSrv.Mint(ctx, &tftypes.MsgMint{Sender: S, Amount: amt(args[0]), MintToAddress: e.addr(to)})
-			return err
 		}
 	case "burn":
-		from := args[1]
-		addrs = []string{from}
-		if from == "-" {
+		addrs = []string{args[1]}
+		if args[1] == "-" {
 			addrs = []string{sender}
-		}
-		run = func(ctx sdk.Context) error {
-			_, err := e.tfSrv.Burn(ctx, &tftypes.MsgBurn{Sender: S, Amount: amt(args[0]), BurnFromAddress: e.addr(from)})
-			return err
 		}
 	case "force":
 		addrs = []string{args[1], args[2]}
-		run = func(ctx sdk.Context) error {
-			_, err := e.tfSrv.ForceTransfer(ctx, &tftypes.MsgForceTransfer{Sender: S, Amount: amt(args[0]), TransferFromAddress: e.addr(args[1]), TransferToAddress: e.addr(args[2])})
-			return err
+	}
+	// the message as sent by S (the twin re-sends it as the current admin)
+	build := func(S string) func(ctx sdk.Context) error {
+		switch kind {
+		case "mint":
+			return func(ctx sdk.Context) error {
+				_, err := e.tfSrv.Mint(ctx, &tftypes.MsgMint{Sender: S, Amount: amt(args[0]), MintToAddress: e.addr(args[1])})
+				return err
+			}
+		case "burn":
+			return func(ctx sdk.Context) error {
+				_, err := e.tfSrv.Burn(ctx, &tftypes.MsgBurn{Sender: S, Amount: amt(args[0]), BurnFromAddress: e.addr(args[1])})
+				return err
+			}
+		case "force":
+			return func(ctx sdk.Context) error {
+				_, err := e.tfSrv.ForceTransfer(ctx, &tftypes.MsgForceTransfer{Sender: S, Amount: amt(args[0]), TransferFromAddress: e.addr(args[1]), TransferToAddress: e.addr(args[2])})
+				return err
+			}
+		case "admin":
+			return func(ctx sdk.Context) error {
+				_, err := e.tfSrv.ChangeAdmin(ctx, &tftypes.MsgChangeAdmin{Sender: S, Denom: rd, NewAdmin: e.addr(args[0])})
+				return err
+			}
+		case "meta":
+			md := banktypes.Metadata{Description: e.addrOrTag(args[1]), DenomUnits: []*banktypes.DenomUnit{{Denom: rd, Exponent: 0}}, Base: rd, Display: rd, Name: rd, Symbol: rd}
+			if args[0] == "0" {
+				md.Name = ""
+			}
+			return func(ctx sdk.Context) error {
+				_, err := e.tfSrv.SetDenomMetadata(ctx, &tftypes.MsgSetDenomMetadata{Sender: S, Metadata: md})
+				return err
+			}
+		case "hook":
+			return func(ctx sdk.Context) error {
+				_, err := e.tfSrv.SetBeforeSendHook(ctx, &tftypes.MsgSetBeforeSendHook{Sender: S, Denom: rd, CosmwasmAddress: e.addr(args[0])})
+				return err
+			}
 		}
-	case "admin":
-		run = func(ctx sdk.Context) error {
-			_, err := e.tfSrv.ChangeAdmin(ctx, &tftypes.MsgChangeAdmin{Sender: S, Denom: rd, NewAdmin: e.addr(args[0])})
-			return err
-		}
-	case "meta":
-		md := banktypes.Metadata{Description: e.addrOrTag(args[1]), DenomUnits: []*banktypes.DenomUnit{{Denom: rd, Exponent: 0}}, Base: rd, Display: rd, Name: rd, Symbol: rd}
-		if args[0] == "0" {
-			md.Name = ""
-		}
-		run = func(ctx sdk.Context) error {
-			_, err := e.tfSrv.SetDenomMetadata(ctx, &tftypes.MsgSetDenomMetadata{Sender: S, Metadata: md})
-			return err
-		}
-	case "hook":
-		run = func(ctx sdk.Context) error {
-			_, err := e.tfSrv.SetBeforeSendHook(ctx, &tftypes.MsgSetBeforeSendHook{Sender: S, Denom: rd, CosmwasmAddress: e.addr(args[0])})
-			return err
-		}
+		panic(kind)
+	}
+	run := build(e.addr(sender))
+	if exists && cur != "-" && !authorised && (class == "stranger" || class == "previous-admin") && e.isValid(cur) && sender != "-" {
+		e.twin = build(e.addr(cur))
+	}
+	e.state = "live"
+	if exists && cur == "-" {
+		e.state = "renounced"
+	} else if !exists {
+		e.state = "no-such-denom"
 	}
 	ok := e.exec("tokenfactory", msgName, class, authorised, true, failKey, line, run)
+	if authDebug && ok && class == "stranger" {
+		fmt.Printf("DEBUG stranger accepted: %s cur=%q exists=%v authorised=%v\n", line, cur, exists, authorised)
+	}
 	if ok && kind == "admin" {
 		w.ref[canon] = args[0]
 		for _, d := range w.denoms {
@@ -752,6 +845,19 @@ func (e *authEnv) showLock(id uint64) string {
 	return fmt.Sprintf("%s/%s/%d/%s/%s/%s", e.nm(l.Owner), e.nm(l.RewardReceiverAddress), int64(l.Duration/time.Second), b01(l.IsUnlocking()), amt, sf)
 }
 
+// denomKind: what the guards look at in a locked denom
+func denomKind(denom string) string {
+	switch {
+	case denom == "uosmo":
+		return "o"
+	case strings.HasPrefix(denom, "gamm/pool/"):
+		return "g" + strings.TrimPrefix(denom, "gamm/pool/")
+	case strings.HasPrefix(denom, "cl/pool/"):
+		return "c" + strings.TrimPrefix(denom, "cl/pool/")
+	}
+	return "x"
+}
+
 func b01(b bool) string {
 	if b {
 		return "1"
@@ -771,12 +877,22 @@ type lkWorld struct {
 	sf    map[uint64]bool
 	allow []string
 	val   string
+	noOwner map[uint64]bool // locks under a CL position: unauthorised attempts only (the owner's lock messages would change what the position model does not link)
+	bank    string          // the account real pool shares are handed out from
+	poolId  uint64          // the balancer pool whose shares are locked
 }
 
 func (e *authEnv) newLock(w *lkWorld, owner string, denom string, amt int64, dur time.Duration, sfAsset bool) uint64 {
 	h := e.h
 	coins := sdk.NewCoins(sdk.NewInt64Coin(denom, amt))
-	h.FundAcc(e.acc(owner), coins)
+	if strings.HasPrefix(denom, "gamm/pool/") && w.bank != "" {
+		// real pool shares (joined by the bank account), so that exiting the pool with them works
+		if err := h.App.BankKeeper.SendCoins(h.Ctx, e.acc(w.bank), e.acc(owner), coins); err != nil {
+			e.t.Fatalf("shares: %v", err)
+		}
+	} else {
+		h.FundAcc(e.acc(owner), coins)
+	}
 	resp, err := e.lkSrv.LockTokens(h.Ctx, lockuptypes.NewMsgLockTokens(e.acc(owner), dur, coins))
 	if err != nil {
 		e.t.Fatalf("LockTokens: %v", err)
@@ -787,16 +903,54 @@ func (e *authEnv) newLock(w *lkWorld, owner string, denom string, amt int64, dur
 	w.denom[id] = denom
 	w.sf[id] = sfAsset
 	w.ids = append(w.ids, id)
-	e.o.Emit(fmt.Sprintf("auth lk.new %d %s %d %d %s", id, owner, amt, int64(dur/time.Second), b01(sfAsset)), "ok", false)
+	e.o.Emit(fmt.Sprintf("auth lk.newk %d %s %d %d %s %s", id, owner, amt, int64(dur/time.Second), b01(sfAsset), denomKind(denom)), "ok", false)
 	return id
 }
+
+// lockState: life-cycle state of a lock as the keepers see it (statistics)
+func (e *authEnv) lockState(id uint64) string {
+	h := e.h
+	l, err := h.App.LockupKeeper.GetLockByID(h.Ctx, id)
+	if err != nil {
+		return "gone"
+	}
+	st := "bonded"
+	if l.IsUnlocking() {
+		st = "unlocking"
+	}
+	if sl, _, err := h.App.LockupKeeper.GetSyntheticLockupByUnderlyingLockId(h.Ctx, id); err == nil && !sl.IsNil() {
+		if sl.IsUnlocking() {
+			st = "sf-undelegating+" + st
+		} else {
+			st = "sf-bonded"
+		}
+	}
+	kind := "other"
+	if len(l.Coins) == 1 {
+		switch d := l.Coins[0].Denom; {
+		case d == "uosmo":
+			kind = "uosmo"
+		case strings.HasPrefix(d, "gamm/pool/"):
+			kind = "gamm"
+		case strings.HasPrefix(d, "cl/pool/"):
+			kind = "clshare"
+		}
+	}
+	return kind + ":" + st
+}
+
+var lkMsgName = map[string]string{"lk.begin": "BeginUnlocking", "lk.extend": "ExtendLockup", "lk.recv": "SetRewardReceiverAddress", "lk.force": "ForceUnlock",
+	"sf.delegate": "SuperfluidDelegate", "sf.undelegate": "SuperfluidUndelegate", "sf.unbond": "SuperfluidUnbondLock", "sf.undunbond": "SuperfluidUndelegateAndUnbondLock",
+	"sf.convert": "UnbondConvertAndStake", "sf.migrate": "UnlockAndMigrateSharesToFullRangeConcentratedPosition", "vp.bonded": "DelegateBondedTokens"}
 
 func (e *authEnv) lkSend(w *lkWorld, module, kind, sender string, id uint64, class string, args []string) bool {
 	h := e.h
 	own, exists := w.owner[id]
 	authorised := exists && own == sender
-	S := e.addr(sender)
 	denom := w.denom[id]
+	if denom == "" {
+		denom = "lkd0"
+	}
 	coins := func(s string) sdk.Coins {
 		var v int64
 		fmt.Sscan(s, &v)
@@ -809,32 +963,12 @@ func (e *authEnv) lkSend(w *lkWorld, module, kind, sender string, id uint64, cla
 	if len(args) > 0 {
 		line += " " + strings.Join(args, " ")
 	}
-	var run func(ctx sdk.Context) error
-	var msgName string
+	msgName, okk := lkMsgName[kind]
+	if !okk {
+		panic(kind)
+	}
 	lastBefore := h.App.LockupKeeper.GetLastLockID(h.Ctx)
-	switch kind {
-	case "lk.begin":
-		msgName = "BeginUnlocking"
-		run = func(ctx sdk.Context) error {
-			_, err := e.lkSrv.BeginUnlocking(ctx, &lockuptypes.MsgBeginUnlocking{Owner: S, ID: id, Coins: coins(args[0])})
-			return err
-		}
-	case "lk.extend":
-		msgName = "ExtendLockup"
-		var sec int64
-		fmt.Sscan(args[0], &sec)
-		run = func(ctx sdk.Context) error {
-			_, err := e.lkSrv.ExtendLockup(ctx, &lockuptypes.MsgExtendLockup{Owner: S, ID: id, Duration: time.Duration(sec) * time.Second})
-			return err
-		}
-	case "lk.recv":
-		msgName = "SetRewardReceiverAddress"
-		run = func(ctx sdk.Context) error {
-			_, err := e.lkSrv.SetRewardReceiverAddress(ctx, &lockuptypes.MsgSetRewardReceiverAddress{Owner: S, LockID: id, RewardReceiver: e.addr(args[0])})
-			return err
-		}
-	case "lk.force":
-		msgName = "ForceUnlock"
+	if kind == "lk.force" {
 		// the allow-list is a second, independent condition of this message
 		inAllow := false
 		for _, a := range w.allow {
@@ -843,44 +977,93 @@ func (e *authEnv) lkSend(w *lkWorld, module, kind, sender string, id uint64, cla
 			}
 		}
 		authorised = authorised && inAllow
-		run = func(ctx sdk.Context) error {
-			_, err := e.lkSrv.ForceUnlock(ctx, &lockuptypes.MsgForceUnlock{Owner: S, ID: id, Coins: coins(args[0])})
-			return err
+	}
+	if kind == "sf.migrate" {
+		authorised = false // the message is disabled: nobody may get through
+	}
+	// the message as sent by S (the twin re-sends it as the owner)
+	build := func(S string) func(ctx sdk.Context) error {
+		switch kind {
+		case "lk.begin":
+			return func(ctx sdk.Context) error {
+				_, err := e.lkSrv.BeginUnlocking(ctx, &lockuptypes.MsgBeginUnlocking{Owner: S, ID: id, Coins: coins(args[0])})
+				return err
+			}
+		case "lk.extend":
+			var sec int64
+			fmt.Sscan(args[0], &sec)
+			return func(ctx sdk.Context) error {
+				_, err := e.lkSrv.ExtendLockup(ctx, &lockuptypes.MsgExtendLockup{Owner: S, ID: id, Duration: time.Duration(sec) * time.Second})
+				return err
+			}
+		case "lk.recv":
+			return func(ctx sdk.Context) error {
+				_, err := e.lkSrv.SetRewardReceiverAddress(ctx, &lockuptypes.MsgSetRewardReceiverAddress{Owner: S, LockID: id, RewardReceiver: e.addr(args[0])})
+				return err
+			}
+		case "lk.force":
+			return func(ctx sdk.Context) error {
+				_, err := e.lkSrv.ForceUnlock(ctx, &lockuptypes.MsgForceUnlock{Owner: S, ID: id, Coins: coins(args[0])})
+				return err
+			}
+		case "sf.delegate":
+			v := args[0]
+			if v == "val" {
+				v = w.val
+			}
+			return func(ctx sdk.Context) error {
+				_, err := e.sfSrv.SuperfluidDelegate(ctx, &sftypes.MsgSuperfluidDelegate{Sender: S, LockId: id, ValAddr: v})
+				return err
+			}
+		case "sf.undelegate":
+			return func(ctx sdk.Context) error {
+				_, err := e.sfSrv.SuperfluidUndelegate(ctx, &sftypes.MsgSuperfluidUndelegate{Sender: S, LockId: id})
+				return err
+			}
+		case "sf.unbond":
+			return func(ctx sdk.Context) error {
+				_, err := e.sfSrv.SuperfluidUnbondLock(ctx, &sftypes.MsgSuperfluidUnbondLock{Sender: S, LockId: id})
+				return err
+			}
+		case "sf.undunbond":
+			var v int64
+			fmt.Sscan(args[0], &v)
+			return func(ctx sdk.Context) error {
+				_, err := e.sfSrv.SuperfluidUndelegateAndUnbondLock(ctx, &sftypes.MsgSuperfluidUndelegateAndUnbondLock{Sender: S, LockId: id, Coin: sdk.Coin{Denom: denom, Amount: osmomath.NewInt(v)}})
+				return err
+			}
+		case "sf.convert":
+			v := args[0]
+			switch v {
+			case "val":
+				v = w.val
+			case "-":
+				v = ""
+			}
+			return func(ctx sdk.Context) error {
+				_, err := e.sfSrv.UnbondConvertAndStake(ctx, &sftypes.MsgUnbondConvertAndStake{Sender: S, LockId: id, ValAddr: v, MinAmtToStake: osmomath.ZeroInt(),
+					SharesToConvert: sdk.Coin{Denom: denom, Amount: osmomath.ZeroInt()}})
+				return err
+			}
+		case "sf.migrate":
+			return func(ctx sdk.Context) error {
+				_, err := e.sfSrv.UnlockAndMigrateSharesToFullRangeConcentratedPosition(ctx, &sftypes.MsgUnlockAndMigrateSharesToFullRangeConcentratedPosition{
+					Sender: S, LockId: int64(id), SharesToMigrate: sdk.Coin{Denom: denom, Amount: osmomath.ZeroInt()}, TokenOutMins: sdk.Coins{}})
+				return err
+			}
+		case "vp.bonded":
+			return func(ctx sdk.Context) error {
+				_, err := e.vpSrv.DelegateBondedTokens(ctx, &vptypes.MsgDelegateBondedTokens{Delegator: S, LockID: id})
+				return err
+			}
 		}
-	case "sf.delegate":
-		msgName = "SuperfluidDelegate"
-		v := args[0]
-		if v == "val" {
-			v = w.val
-		}
-		run = func(ctx sdk.Context) error {
-			_, err := e.sfSrv.SuperfluidDelegate(ctx, &sftypes.MsgSuperfluidDelegate{Sender: S, LockId: id, ValAddr: v})
-			return err
-		}
-	case "sf.undelegate":
-		msgName = "SuperfluidUndelegate"
-		run = func(ctx sdk.Context) error {
-			_, err := e.sfSrv.SuperfluidUndelegate(ctx, &sftypes.MsgSuperfluidUndelegate{Sender: S, LockId: id})
-			return err
-		}
-	case "sf.unbond":
-		msgName = "SuperfluidUnbondLock"
-		run = func(ctx sdk.Context) error {
-			_, err := e.sfSrv.SuperfluidUnbondLock(ctx, &sftypes.MsgSuperfluidUnbondLock{Sender: S, LockId: id})
-			return err
-		}
-	case "sf.undunbond":
-		msgName = "SuperfluidUndelegateAndUnbondLock"
-		var v int64
-		fmt.Sscan(args[0], &v)
-		run = func(ctx sdk.Context) error {
-			_, err := e.sfSrv.SuperfluidUndelegateAndUnbondLock(ctx, &sftypes.MsgSuperfluidUndelegateAndUnbondLock{Sender: S, LockId: id, Coin: sdk.Coin{Denom: denom, Amount: osmomath.NewInt(v)}})
-			return err
-		}
-	default:
 		panic(kind)
 	}
-	ok := e.exec(module, msgName, class, authorised, true, "", line, run)
+	e.state = e.lockState(id)
+	if exists && !authorised && own != sender && (class == "stranger" || (class == "allowlisted" && kind == "lk.force")) && e.isValid(own) {
+		e.twin = build(e.addr(own))
+	}
+	ok := e.exec(module, msgName, class, authorised, true, "", line, build(e.addr(sender)))
 	if ok {
 		// a split creates a lock with the same owner
 		last := h.App.LockupKeeper.GetLastLockID(h.Ctx)
@@ -898,6 +1081,9 @@ func (e *authEnv) lkSend(w *lkWorld, module, kind, sender string, id uint64, cla
 		if _, err := h.App.LockupKeeper.GetLockByID(h.Ctx, id); err != nil {
 			delete(w.owner, id)
 		}
+		if kind == "sf.convert" {
+			e.deleg[sender] = true
+		}
 	}
 	if o2, ok2 := w.owner[id]; ok2 {
 		if l, err := h.App.LockupKeeper.GetLockByID(h.Ctx, id); err != nil || e.nm(l.Owner) != o2 {
@@ -908,15 +1094,88 @@ func (e *authEnv) lkSend(w *lkWorld, module, kind, sender string, id uint64, cla
 	return ok
 }
 
+// unpoolSend: MsgUnPoolWhitelistedPool names no lock either.  Sent only by addresses that hold no lock of the
+// pool's shares: it must then be a no-op — nothing in any store may change, whether it is accepted (pool on the
+// allow-list) or not.
+func (e *authEnv) unpoolSend(w *lkWorld, sender, class string, poolId uint64, shareDenom string) {
+	h := e.h
+	var ids []uint64
+	for _, id := range w.ids {
+		if o, ok := w.owner[id]; ok {
+			if o == sender && w.denom[id] == shareDenom {
+				return // the sender's own locks would be unpooled (pool math): not sent
+			}
+			ids = append(ids, id)
+		}
+	}
+	sort.Slice(ids, func(i, j int) bool { return ids[i] < ids[j] })
+	line := fmt.Sprintf("auth sf.unpool %s %d %s", sender, poolId, idsStr(ids))
+	before := e.snap(h.Ctx)
+	e.state = "no-own-lock"
+	ok := e.exec("superfluid", "UnPoolWhitelistedPool", class, true, false, "", line, func(ctx sdk.Context) error {
+		_, err := e.sfSrv.UnPoolWhitelistedPool(ctx, &sftypes.MsgUnPoolWhitelistedPool{Sender: e.addr(sender), PoolId: poolId})
+		return err
+	})
+	if d := snapDiff(before, e.snap(h.Ctx)); len(d) > 0 {
+		e.o.Fail("superfluid.UnPoolWhitelistedPool:"+class+":no-own-lock:state-changed", line+" stores="+strings.Join(d, ","))
+	}
+	var ps []string
+	for _, id := range ids {
+		ps = append(ps, fmt.Sprintf("%d:%s", id, e.showLock(id)))
+	}
+	e.o.Emit(line, fmt.Sprintf("%s L=[%s] last=%d", resStr(ok), strings.Join(ps, ","), h.App.LockupKeeper.GetLastLockID(h.Ctx)), true)
+}
+
+// lkBeginAllSend: MsgBeginUnlockingAll names no lock; whoever sends it, the locks of everybody else must be
+// exactly what they were (independent oracle: the keeper's record of every foreign lock before / after).
+func (e *authEnv) lkBeginAllSend(w *lkWorld, sender, class string) bool {
+	h := e.h
+	var ids []uint64
+	for _, id := range w.ids {
+		if _, ok := w.owner[id]; ok {
+			ids = append(ids, id)
+		}
+	}
+	sort.Slice(ids, func(i, j int) bool { return ids[i] < ids[j] })
+	foreign := func() string {
+		var sb strings.Builder
+		for _, id := range ids {
+			if w.owner[id] != sender {
+				sb.WriteString(fmt.Sprintf("%d=%s;", id, e.showLock(id)))
+			}
+		}
+		return sb.String()
+	}
+	before := foreign()
+	line := fmt.Sprintf("auth lk.beginall %s %s", sender, idsStr(ids))
+	e.state = "all-own-locks"
+	ok := e.exec("lockup", "BeginUnlockingAll", class, true, false, "", line, func(ctx sdk.Context) error {
+		_, err := e.lkSrv.BeginUnlockingAll(ctx, &lockuptypes.MsgBeginUnlockingAll{Owner: e.addr(sender)})
+		return err
+	})
+	if before != foreign() {
+		e.o.Fail("lockup.BeginUnlockingAll:"+class+":foreign-lock-touched", line)
+	}
+	var ps []string
+	for _, id := range ids {
+		ps = append(ps, fmt.Sprintf("%d:%s", id, e.showLock(id)))
+	}
+	e.o.Emit(line, fmt.Sprintf("%s L=[%s] last=%d", resStr(ok), strings.Join(ps, ","), h.App.LockupKeeper.GetLastLockID(h.Ctx)), true)
+	return ok
+}
+
 func (e *authEnv) lkSenders(w *lkWorld, id uint64) [][2]string {
 	own := w.owner[id]
 	var ss [][2]string
+	// the stranger is a user who could execute every message himself: he holds liquid pool shares (more than
+	// any lock), uosmo, and — if any user has one — a validator-set preference
+	stranger := ""
 	for _, u := range e.users {
-		if u != own {
-			ss = append(ss, [2]string{u, "stranger"})
-			break
+		if u != own && (stranger == "" || (e.deleg[u] && !e.deleg[stranger])) {
+			stranger = u
 		}
 	}
+	ss = append(ss, [2]string{stranger, "stranger"})
 	for _, a := range w.allow {
 		if a != own {
 			ss = append(ss, [2]string{a, "allowlisted"})
@@ -930,7 +1189,9 @@ func (e *authEnv) lkSenders(w *lkWorld, id uint64) [][2]string {
 	return ss
 }
 
-func (e *authEnv) lkArgs(w *lkWorld, kind string, id uint64, sender string) []string {
+// lkArgs draws message arguments; plausible = arguments with which the message goes through when the
+// owner sends it in the lock's current state (if any do).
+func (e *authEnv) lkArgs(w *lkWorld, kind string, id uint64, sender string, plausible bool) []string {
 	h := e.h
 	l, err := h.App.LockupKeeper.GetLockByID(h.Ctx, id)
 	amt, dur := int64(0), int64(0)
@@ -939,7 +1200,11 @@ func (e *authEnv) lkArgs(w *lkWorld, kind string, id uint64, sender string) []st
 	}
 	usr := func() string { return e.users[e.r.Intn(len(e.users))] }
 	part := func() string {
-		switch e.r.Intn(6) {
+		k := e.r.Intn(6)
+		if plausible && k == 1 {
+			k = 0
+		}
+		switch k {
 		case 0:
 			return fmt.Sprint(amt)
 		case 1:
@@ -955,27 +1220,52 @@ func (e *authEnv) lkArgs(w *lkWorld, kind string, id uint64, sender string) []st
 	case "lk.begin", "lk.force":
 		return []string{part()}
 	case "lk.extend":
+		if plausible {
+			return []string{fmt.Sprint(dur + 3600)}
+		}
 		return []string{fmt.Sprint(e.pick(fmt.Sprint(dur+3600), fmt.Sprint(dur+3600), fmt.Sprint(dur), "0", fmt.Sprint(dur-1)))}
 	case "lk.recv":
+		if plausible {
+			cur := ""
+			if err == nil {
+				cur = e.nm(l.RewardReceiverAddress)
+			}
+			for _, u := range e.users {
+				if u != cur && !(cur == "-" && u == w.owner[id]) {
+					return []string{u}
+				}
+			}
+		}
 		return []string{e.pick(usr(), usr(), sender, e.pool, "bad")}
 	case "sf.delegate":
+		if plausible {
+			return []string{"val"}
+		}
 		return []string{e.pick("val", "val", "val", "badval")}
 	case "sf.undunbond":
 		p := part()
-		if p == "0" && e.r.Intn(3) != 0 {
+		if p == "0" && (plausible || e.r.Intn(3) != 0) {
 			p = fmt.Sprint(amt)
 		}
 		return []string{p}
+	case "sf.convert":
+		if plausible {
+			return []string{"val"}
+		}
+		return []string{e.pick("val", "val", "badval", "-")}
 	}
 	return nil
 }
 
-var lkKinds = []string{"lk.begin", "lk.extend", "lk.recv", "lk.force"}
-var sfKinds = []string{"sf.delegate", "sf.undelegate", "sf.unbond", "sf.undunbond"}
+var lkKinds = []string{"lk.begin", "lk.extend", "lk.recv", "lk.force", "vp.bonded"}
+var sfKinds = []string{"sf.delegate", "sf.undelegate", "sf.unbond", "sf.undunbond", "sf.convert", "sf.migrate"}
 
 func modOf(kind string) string {
 	if strings.HasPrefix(kind, "sf.") {
 		return "superfluid"
+	}
+	if strings.HasPrefix(kind, "vp.") {
+		return "valset-pref"
 	}
 	return "lockup"
 }
@@ -987,46 +1277,109 @@ func (e *authEnv) lkSweep(w *lkWorld, kinds []string, withOwner bool) {
 			continue
 		}
 		for _, kind := range kinds {
-			for _, s := range e.lkSenders(w, id) {
-				e.lkSend(w, modOf(kind), kind, s[0], id, s[1], e.lkArgs(w, kind, id, s[0]))
+			if _, ok := w.owner[id]; !ok {
+				break
 			}
-			if own, ok := w.owner[id]; ok && withOwner && e.r.Intn(3) != 0 {
-				e.lkSend(w, modOf(kind), kind, own, id, "owner", e.lkArgs(w, kind, id, own))
+			if kind == "sf.undunbond" && !strings.HasSuffix(e.lockState(id), ":sf-bonded") && e.r.Intn(3) != 0 {
+				continue // the handler looks at the superfluid state BEFORE the owner: mostly sent where the owner check decides
+			}
+			for _, s := range e.lkSenders(w, id) {
+				// the resourced stranger mostly sends what the owner could send
+				plausible := s[1] == "stranger" && e.r.Intn(4) != 0
+				e.lkSend(w, modOf(kind), kind, s[0], id, s[1], e.lkArgs(w, kind, id, s[0], plausible))
+			}
+			ownerActs := e.r.Intn(3) != 0 // the owner acts two times in three …
+			if kind == "sf.convert" || kind == "vp.bonded" {
+				ownerActs = e.r.Intn(5) == 0 // … but rarely destroys the lock
+			}
+			if own, ok := w.owner[id]; ok && withOwner && !w.noOwner[id] && ownerActs {
+				e.lkSend(w, modOf(kind), kind, own, id, "owner", e.lkArgs(w, kind, id, own, e.r.Intn(3) != 0))
 			}
 		}
 	}
 	// a lock that does not exist
 	for _, kind := range kinds {
-		e.lkSend(w, modOf(kind), kind, e.users[0], 999999, "stranger", e.lkArgs(w, kind, 999999, e.users[0]))
+		e.lkSend(w, modOf(kind), kind, e.users[0], 999999, "stranger", e.lkArgs(w, kind, 999999, e.users[0], false))
+	}
+}
+
+// drive sends owner messages that must succeed (set-up of a life-cycle state)
+func (e *authEnv) drive(w *lkWorld, id uint64, kinds ...string) {
+	own := w.owner[id]
+	for _, kind := range kinds {
+		args := e.lkArgs(w, kind, id, own, true)
+		if kind == "lk.begin" {
+			args = []string{"0"}
+		}
+		if !e.lkSend(w, modOf(kind), kind, own, id, "owner", args) {
+			e.o.Count("setup-failed." + kind)
+			return
+		}
 	}
 }
 
 func (e *authEnv) lkPhase(w *lkWorld, sfDenom string, unbonding time.Duration) {
 	durs := []time.Duration{time.Hour, 24 * time.Hour, unbonding, unbonding + time.Hour}
-	n := 2 + e.r.Intn(3)
+	n := 1 + e.r.Intn(2)
 	for i := 0; i < n; i++ {
 		e.newLock(w, e.users[e.r.Intn(len(e.users))], fmt.Sprintf("lkd%d", i), int64(100+e.r.Intn(1000)), durs[e.r.Intn(len(durs))], false)
 	}
-	// superfluid-capable locks (gamm shares), distinct (owner, duration) pairs
-	used := map[string]bool{}
-	ns := 2 + e.r.Intn(2)
-	for i := 0; i < ns; i++ {
+	// bonded uosmo locks (the objects of valset-pref's DelegateBondedTokens): within and beyond two weeks
+	for i := 0; i < 1+e.r.Intn(2); i++ {
+		d := []time.Duration{time.Hour, 24 * time.Hour, 14 * 24 * time.Hour, 14*24*time.Hour + time.Second}[e.r.Intn(4)]
+		e.newLock(w, e.users[e.r.Intn(len(e.users))], "uosmo", int64(100+e.r.Intn(1000)), d+time.Duration(i)*time.Minute, false)
+	}
+	// locked gamm shares, one lock per life-cycle state (distinct durations: LockTokens would otherwise merge)
+	states := []string{"bonded", "unlocking", "sf-bonded", "sf-undelegating", "sf-unbonding"}
+	e.r.Shuffle(len(states), func(i, j int) { states[i], states[j] = states[j], states[i] })
+	states = states[:3+e.r.Intn(3)]
+	for i, st := range states {
 		u := e.users[e.r.Intn(len(e.users))]
-		d := []time.Duration{unbonding, unbonding, unbonding + time.Hour, time.Hour}[e.r.Intn(4)]
-		k := fmt.Sprintf("%s/%d", u, d)
-		if used[k] {
-			continue
+		d := unbonding + time.Duration(i)*time.Hour
+		if (st == "bonded" || st == "unlocking") && e.r.Intn(2) == 0 {
+			d = time.Hour + time.Duration(i)*time.Minute
 		}
-		used[k] = true
-		e.newLock(w, u, sfDenom, int64(1000000+e.r.Intn(1000000)), d, true)
+		id := e.newLock(w, u, sfDenom, int64(100000000000000000+e.r.Int63n(800000000000000000)), d, true)
+		switch st {
+		case "unlocking":
+			e.drive(w, id, "lk.begin")
+		case "sf-bonded":
+			e.drive(w, id, "sf.delegate")
+		case "sf-undelegating":
+			e.drive(w, id, "sf.delegate", "sf.undelegate")
+		case "sf-unbonding":
+			e.drive(w, id, "sf.delegate", "sf.undelegate", "sf.unbond")
+		}
+		e.o.Count("lock-state-setup." + st)
 	}
 	all := append(append([]string{}, lkKinds...), sfKinds...)
-	// several rounds: non-owners on every state the owners drive the locks through
+	// first every message from the non-owners on the states just set up …
+	e.lkSweep(w, all, false)
+	// … then several rounds: non-owners on every state the owners drive the locks through
 	rounds := 2
 	for r := 0; r < rounds; r++ {
 		e.r.Shuffle(len(all), func(i, j int) { all[i], all[j] = all[j], all[i] })
 		e.lkSweep(w, all, true)
 	}
+	// UnPoolWhitelistedPool from addresses without a lock of the pool
+	for _, u := range e.users {
+		e.unpoolSend(w, u, "no-lock-of-pool", w.poolId, sfDenom)
+	}
+	e.unpoolSend(w, e.pool, "pool", w.poolId, sfDenom)
+	e.unpoolSend(w, e.modSome[e.r.Intn(len(e.modSome))], "module", w.poolId, sfDenom)
+	e.unpoolSend(w, "bad", "malformed", w.poolId, sfDenom)
+	e.unpoolSend(w, e.users[0], "other-pool", w.poolId+1000, sfDenom)
+	// BeginUnlockingAll last (it levels the states): some users, the pool address, a module account, a malformed sender
+	for _, u := range e.users {
+		if e.r.Intn(2) == 0 {
+			e.lkBeginAllSend(w, u, "owner-of-some")
+		}
+	}
+	e.lkBeginAllSend(w, e.pool, "pool")
+	e.lkBeginAllSend(w, e.modSome[e.r.Intn(len(e.modSome))], "module")
+	e.lkBeginAllSend(w, "bad", "malformed")
+	// … and once more the unauthorised senders on what is left
+	e.lkSweep(w, []string{"lk.begin", "sf.convert", "vp.bonded", "sf.unbond"}, false)
 }
 
 // ---------------------------------------------------------------- concentrated liquidity
@@ -1035,6 +1388,8 @@ type clWorld struct {
 	prev  map[uint64][]string
 	pool  map[uint64]uint64
 	ids   []uint64
+	lockOf map[uint64]uint64 // position -> underlying lock
+	lk     *lkWorld
 }
 
 func (e *authEnv) showPos(id uint64) string {
@@ -1072,12 +1427,28 @@ func (e *authEnv) clRegister(w *clWorld, id uint64, owner string, pool uint64, l
 	e.o.Emit(fmt.Sprintf("auth cl.new %d %s %d %s", id, owner, pool, b01(locked)), "ok", false)
 }
 
-var clMsgName = map[string]string{"cl.withdraw": "WithdrawPosition", "cl.add": "AddToPosition", "cl.fees": "CollectSpreadRewards", "cl.inc": "CollectIncentives", "cl.xfer": "TransferPositions"}
+var clMsgName = map[string]string{"cl.withdraw": "WithdrawPosition", "cl.add": "AddToPosition", "cl.fees": "CollectSpreadRewards", "cl.inc": "CollectIncentives", "cl.xfer": "TransferPositions",
+	"sf.addcl": "AddToConcentratedLiquiditySuperfluidPosition"}
+
+// posState: plain / locked (an underlying lock that is not superfluid staked) / sf-staked
+func (e *authEnv) posState(id uint64) string {
+	h := e.h
+	if _, err := h.App.ConcentratedLiquidityKeeper.GetPosition(h.Ctx, id); err != nil {
+		return "gone"
+	}
+	has, lockId, err := h.App.ConcentratedLiquidityKeeper.PositionHasActiveUnderlyingLock(h.Ctx, id)
+	if err != nil || !has {
+		return "plain"
+	}
+	if st := e.lockState(lockId); st != "clshare:bonded" {
+		return "lock-" + strings.TrimPrefix(st, "clshare:")
+	}
+	return "locked"
+}
 
 func (e *authEnv) clSend(w *clWorld, kind, sender string, ids []uint64, class string, args []string) bool {
 	h := e.h
 	k := h.App.ConcentratedLiquidityKeeper
-	S := e.addr(sender)
 	// engine's own verdict: the sender owns every addressed position (or is gov, for transfers)
 	authorised := len(ids) > 0
 	ownsSome := false
@@ -1106,13 +1477,21 @@ func (e *authEnv) clSend(w *clWorld, kind, sender string, ids []uint64, class st
 		class = "owner"
 	}
 	var line string
-	var run func(ctx sdk.Context) error
-	var newID uint64
+	var newID, newLock uint64
+	newAmt := osmomath.ZeroInt()
+	module := "concentrated-liquidity"
+	liq := osmomath.ZeroDec()
+	var a0, a1 int64
+	fundFor := func(who string) {
+		if (strings.HasPrefix(who, "u") || who == "t0") && a0 >= 0 && a1 >= 0 {
+			h.FundAcc(e.acc(who), sdk.NewCoins(sdk.NewInt64Coin("eth", a0+10), sdk.NewInt64Coin("usdc", a1+10)))
+			e.base = nil
+		}
+	}
 	switch kind {
 	case "cl.withdraw":
 		id := ids[0]
 		line = fmt.Sprintf("auth cl.withdraw %s %d %s", sender, id, args[0])
-		liq := osmomath.ZeroDec()
 		if p, err := k.GetPosition(h.Ctx, id); err == nil {
 			liq = p.Liquidity
 		}
@@ -1124,55 +1503,86 @@ func (e *authEnv) clSend(w *clWorld, kind, sender string, ids []uint64, class st
 		case "neg":
 			liq = osmomath.OneDec().Neg()
 		}
-		run = func(ctx sdk.Context) error {
-			_, err := e.clSrv.WithdrawPosition(ctx, &cltypes.MsgWithdrawPosition{PositionId: id, Sender: S, LiquidityAmount: liq})
-			return err
-		}
-	case "cl.add":
+	case "cl.add", "sf.addcl":
 		id := ids[0]
-		line = fmt.Sprintf("auth cl.add %s %d %s %s", sender, id, args[0], args[1])
-		var a0, a1 int64
+		line = fmt.Sprintf("auth %s %s %d %s %s", kind, sender, id, args[0], args[1])
 		fmt.Sscan(args[0], &a0)
 		fmt.Sscan(args[1], &a1)
-		if (strings.HasPrefix(sender, "u") || sender == "t0") && a0 >= 0 && a1 >= 0 {
-			h.FundAcc(e.acc(sender), sdk.NewCoins(sdk.NewInt64Coin("eth", a0+10), sdk.NewInt64Coin("usdc", a1+10)))
-			e.base = nil
-		}
-		run = func(ctx sdk.Context) error {
-			resp, err := e.clSrv.AddToPosition(ctx, &cltypes.MsgAddToPosition{PositionId: id, Sender: S, Amount0: osmomath.NewInt(a0), Amount1: osmomath.NewInt(a1),
-				TokenMinAmount0: osmomath.ZeroInt(), TokenMinAmount1: osmomath.ZeroInt()})
-			if err == nil {
-				newID = resp.PositionId
-			}
-			return err
+		fundFor(sender)
+		if kind == "sf.addcl" {
+			module = "superfluid"
 		}
 	case "cl.fees":
 		line = fmt.Sprintf("auth cl.fees %s %s", sender, idsStr(ids))
-		run = func(ctx sdk.Context) error {
-			_, err := e.clSrv.CollectSpreadRewards(ctx, &cltypes.MsgCollectSpreadRewards{PositionIds: ids, Sender: S})
-			return err
-		}
 	case "cl.inc":
 		line = fmt.Sprintf("auth cl.inc %s %s", sender, idsStr(ids))
-		run = func(ctx sdk.Context) error {
-			_, err := e.clSrv.CollectIncentives(ctx, &cltypes.MsgCollectIncentives{PositionIds: ids, Sender: S})
-			return err
-		}
 	case "cl.xfer":
 		line = fmt.Sprintf("auth cl.xfer %s %s %s", sender, idsStr(ids), args[0])
-		run = func(ctx sdk.Context) error {
-			_, err := e.clSrv.TransferPositions(ctx, &cltypes.MsgTransferPositions{PositionIds: ids, Sender: S, NewOwner: e.addr(args[0])})
-			return err
+	}
+	// the message as sent by S (the twin re-sends it as the owner)
+	build := func(S string, record bool) func(ctx sdk.Context) error {
+		switch kind {
+		case "cl.withdraw":
+			return func(ctx sdk.Context) error {
+				_, err := e.clSrv.WithdrawPosition(ctx, &cltypes.MsgWithdrawPosition{PositionId: ids[0], Sender: S, LiquidityAmount: liq})
+				return err
+			}
+		case "cl.add":
+			return func(ctx sdk.Context) error {
+				resp, err := e.clSrv.AddToPosition(ctx, &cltypes.MsgAddToPosition{PositionId: ids[0], Sender: S, Amount0: osmomath.NewInt(a0), Amount1: osmomath.NewInt(a1),
+					TokenMinAmount0: osmomath.ZeroInt(), TokenMinAmount1: osmomath.ZeroInt()})
+				if err == nil && record {
+					newID = resp.PositionId
+				}
+				return err
+			}
+		case "sf.addcl":
+			return func(ctx sdk.Context) error {
+				resp, err := e.sfSrv.AddToConcentratedLiquiditySuperfluidPosition(ctx, &sftypes.MsgAddToConcentratedLiquiditySuperfluidPosition{PositionId: ids[0], Sender: S,
+					TokenDesired0: sdk.Coin{Denom: "eth", Amount: osmomath.NewInt(a0)}, TokenDesired1: sdk.Coin{Denom: "usdc", Amount: osmomath.NewInt(a1)}})
+				if err == nil && record {
+					newID, newLock = resp.PositionId, resp.LockId
+					if l, lerr := h.App.LockupKeeper.GetLockByID(ctx, resp.LockId); lerr == nil && len(l.Coins) == 1 {
+						newAmt = l.Coins[0].Amount
+					}
+				}
+				return err
+			}
+		case "cl.fees":
+			return func(ctx sdk.Context) error {
+				_, err := e.clSrv.CollectSpreadRewards(ctx, &cltypes.MsgCollectSpreadRewards{PositionIds: ids, Sender: S})
+				return err
+			}
+		case "cl.inc":
+			return func(ctx sdk.Context) error {
+				_, err := e.clSrv.CollectIncentives(ctx, &cltypes.MsgCollectIncentives{PositionIds: ids, Sender: S})
+				return err
+			}
+		case "cl.xfer":
+			return func(ctx sdk.Context) error {
+				_, err := e.clSrv.TransferPositions(ctx, &cltypes.MsgTransferPositions{PositionIds: ids, Sender: S, NewOwner: e.addr(args[0])})
+				return err
+			}
+		}
+		panic(kind)
+	}
+	if len(ids) == 1 {
+		e.state = e.posState(ids[0])
+		if own, ok := w.owner[ids[0]]; ok && !authorised && class == "stranger" && e.isValid(own) {
+			if kind == "cl.add" || kind == "sf.addcl" {
+				fundFor(own)
+			}
+			e.twin = build(e.addr(own), false)
 		}
 	}
-	ok := e.exec("concentrated-liquidity", clMsgName[kind], class, authorised, strict, "", line, run)
+	ok := e.exec(module, clMsgName[kind], class, authorised, strict, "", line, build(e.addr(sender), true))
 	if ok {
 		switch kind {
 		case "cl.withdraw":
 			if _, err := k.GetPosition(h.Ctx, ids[0]); err != nil {
 				delete(w.owner, ids[0])
 			}
-		case "cl.add":
+		case "cl.add", "sf.addcl":
 			delete(w.owner, ids[0])
 			w.owner[newID] = sender
 			w.pool[newID] = w.pool[ids[0]]
@@ -1189,8 +1599,24 @@ func (e *authEnv) clSend(w *clWorld, kind, sender string, ids []uint64, class st
 	}
 	for _, id := range ids {
 		if o, ok2 := w.owner[id]; ok2 && e.showPos(id) != o {
-			e.o.Fail("concentrated-liquidity."+clMsgName[kind]+":owner-record-mismatch", line)
+			e.o.Fail(module+"."+clMsgName[kind]+":owner-record-mismatch", line)
 		}
+	}
+	if kind == "sf.addcl" {
+		// the liquidity of the re-created position (= the amount of its new lock) is an input of the model
+		line += " " + newAmt.String()
+		if ok && w.lk != nil {
+			old := w.lockOf[ids[0]]
+			delete(w.lk.owner, old)
+			w.lk.owner[newLock] = sender
+			w.lk.denom[newLock] = w.lk.denom[old]
+			w.lk.sf[newLock] = true
+			w.lk.noOwner[newLock] = true
+			w.lk.ids = append(w.lk.ids, newLock)
+			w.lockOf[newID] = newLock
+		}
+		e.o.Emit(line, e.clObs(ok, ids)+" "+e.lkObs(ok, h.App.LockupKeeper.GetLastLockID(h.Ctx)), true)
+		return ok
 	}
 	e.o.Emit(line, e.clObs(ok, ids), true)
 	return ok
@@ -1227,12 +1653,25 @@ func (e *authEnv) clSenders(w *clWorld, id uint64) [][2]string {
 	return ss
 }
 
-func (e *authEnv) clArgs(kind string) []string {
+func (e *authEnv) clArgs(kind string) []string { return e.clArgsP(kind, false) }
+
+// clArgsP: plausible = arguments with which the owner's message goes through (on a position without lock)
+func (e *authEnv) clArgsP(kind string, plausible bool) []string {
 	usr := func() string { return e.users[e.r.Intn(len(e.users))] }
+	if plausible {
+		switch kind {
+		case "cl.withdraw":
+			return []string{e.pick("full", "part")}
+		case "cl.add", "sf.addcl":
+			return []string{e.pick("1000", "5000"), e.pick("1000", "7000")}
+		case "cl.xfer":
+			return []string{usr()}
+		}
+	}
 	switch kind {
 	case "cl.withdraw":
 		return []string{e.pick("full", "part", "part", "excess", "neg")}
-	case "cl.add":
+	case "cl.add", "sf.addcl":
 		return []string{e.pick("1000", "5000", "0", "1000", "-1"), e.pick("1000", "7000", "0", "1000")}
 	case "cl.xfer":
 		return []string{e.pick(usr(), usr(), usr(), e.pool, "bad")}
@@ -1240,7 +1679,7 @@ func (e *authEnv) clArgs(kind string) []string {
 	return nil
 }
 
-var clKinds = []string{"cl.fees", "cl.inc", "cl.xfer", "cl.add", "cl.withdraw"}
+var clKinds = []string{"cl.fees", "cl.inc", "cl.xfer", "sf.addcl", "cl.add", "cl.withdraw"}
 
 func (e *authEnv) clPhase(w *clWorld, pools []uint64) {
 	h := e.h
@@ -1288,8 +1727,11 @@ func (e *authEnv) clPhase(w *clWorld, pools []uint64) {
 				if _, ok := w.owner[id]; !ok {
 					break
 				}
+				if kind == "sf.addcl" && e.posState(id) == "plain" && e.r.Intn(4) != 0 {
+					continue // not superfluid staked: rejected before the owner is looked at; mostly sent to staked positions
+				}
 				for _, s := range e.clSenders(w, id) {
-					e.clSend(w, kind, s[0], []uint64{id}, s[1], e.clArgs(kind))
+					e.clSend(w, kind, s[0], []uint64{id}, s[1], e.clArgsP(kind, s[1] == "stranger" && e.r.Intn(4) != 0))
 				}
 				if own, ok := w.owner[id]; ok && e.isValid(own) && own != e.pool && e.r.Intn(4) != 0 {
 					e.clSend(w, kind, own, []uint64{id}, "owner", e.clArgs(kind))
@@ -1342,6 +1784,65 @@ func (e *authEnv) clPhase(w *clWorld, pools []uint64) {
 	}
 }
 
+// ---------------------------------------------------------------- gamm: stableswap scaling-factor controller
+type gmPool struct {
+	id         uint64
+	controller string // canonical name, "-" = none
+}
+
+func (e *authEnv) gmSend(p gmPool, sender, class string, factorsOk bool) bool {
+	authorised := p.controller != "-" && sender == p.controller
+	factors := []uint64{1, 1, 1}
+	if e.r.Intn(2) == 0 {
+		factors = []uint64{2, 1, 1}
+	}
+	if !factorsOk {
+		factors = []uint64{1}
+	}
+	line := fmt.Sprintf("auth gm.scaling %s %d %s", sender, p.id, b01(factorsOk))
+	build := func(S string) func(ctx sdk.Context) error {
+		return func(ctx sdk.Context) error {
+			_, err := e.ssSrv.StableSwapAdjustScalingFactors(ctx, &stableswap.MsgStableSwapAdjustScalingFactors{Sender: S, PoolID: p.id, ScalingFactors: factors})
+			return err
+		}
+	}
+	e.state = "controlled"
+	if p.controller == "-" {
+		e.state = "no-controller"
+	} else if !authorised && class == "stranger" {
+		e.twin = build(e.addr(p.controller))
+	}
+	ok := e.exec("gamm", "StableSwapAdjustScalingFactors", class, authorised, true, "", line, build(e.addr(sender)))
+	e.o.Emit(line, resStr(ok), true)
+	return ok
+}
+
+func (e *authEnv) gmPhase(pools []gmPool, balancerPool uint64) {
+	for round := 0; round < 2; round++ {
+		for _, p := range pools {
+			stranger := ""
+			for _, u := range e.users {
+				if u != p.controller {
+					stranger = u
+					break
+				}
+			}
+			for _, s := range [][2]string{{stranger, "stranger"}, {"t0", "pool-creator"}, {e.pool, "pool"}, {e.gov, "gov"}, {e.modSome[e.r.Intn(len(e.modSome))], "module"}, {"bad", "malformed"}} {
+				if s[0] == p.controller {
+					continue
+				}
+				e.gmSend(p, s[0], s[1], e.r.Intn(4) != 0)
+			}
+			if p.controller != "-" {
+				e.gmSend(p, p.controller, "controller", e.r.Intn(4) != 0)
+			}
+		}
+		// a pool that is not a stableswap pool, and one that does not exist
+		e.gmSend(gmPool{balancerPool, "-"}, e.users[0], "not-stableswap", true)
+		e.gmSend(gmPool{999999, "-"}, e.users[0], "no-such-pool", true)
+	}
+}
+
 // ---------------------------------------------------------------- driver
 func runAuth(t *testing.T, seed int64, n int, dir string) {
 	repoDir := os.Getenv("VERIF_REPO")
@@ -1359,29 +1860,103 @@ func runAuth(t *testing.T, seed int64, n int, dir string) {
 		pools := []uint64{clPool.GetId()}
 		e.reg("pool", clPool.GetAddress())
 		e.pool = "pool"
-		cw := &clWorld{owner: map[uint64]string{}, prev: map[uint64][]string{}, pool: map[uint64]uint64{}}
-		lockedPos := uint64(0)
-		if e.r.Intn(2) == 0 {
-			// a position with an active underlying lock
-			coins := sdk.NewCoins(sdk.NewInt64Coin("eth", 100000), sdk.NewInt64Coin("usdc", 100000))
-			u := e.users[e.r.Intn(len(e.users))]
-			h.FundAcc(e.acc(u), coins)
-			d, _, err := h.App.ConcentratedLiquidityKeeper.CreateFullRangePositionLocked(h.Ctx, clPool.GetId(), e.acc(u), coins, 24*time.Hour)
-			if err != nil {
-				t.Fatalf("CreateFullRangePositionLocked: %v", err)
+		cw := &clWorld{owner: map[uint64]string{}, prev: map[uint64][]string{}, pool: map[uint64]uint64{}, lockOf: map[uint64]uint64{}}
+		// stableswap pools: one with a scaling-factor controller, one without
+		var gms []gmPool
+		for i := 0; i < 2; i++ {
+			h.FundAcc(h.TestAccs[0], apptesting.DefaultStableswapLiquidity)
+			ctl := e.pick(e.users[e.r.Intn(len(e.users))], e.users[e.r.Intn(len(e.users))], "pool")
+			if i == 1 {
+				ctl = "-"
 			}
-			lockedPos = d.ID
-			cw.owner[d.ID] = u
+			msg := stableswap.NewMsgCreateStableswapPool(h.TestAccs[0], stableswap.PoolParams{SwapFee: osmomath.ZeroDec(), ExitFee: osmomath.ZeroDec()},
+				apptesting.DefaultStableswapLiquidity, []uint64{1, 1, 1}, "")
+			msg.ScalingFactorController = e.addr(ctl)
+			h.FundAcc(h.TestAccs[0], h.App.PoolManagerKeeper.GetParams(h.Ctx).PoolCreationFee)
+			pid, err := h.App.PoolManagerKeeper.CreatePool(h.Ctx, msg)
+			if err != nil {
+				t.Fatalf("stableswap pool: %v", err)
+			}
+			gms = append(gms, gmPool{pid, ctl})
+		}
+
+		val := h.SetupValidator(stakingtypes.Bonded)
+		sp, _ := h.App.StakingKeeper.GetParams(h.Ctx)
+		unbonding := sp.UnbondingTime
+		// as on the real chain the bond denom is uosmo (the test app's genesis and SetupValidator say "stake"):
+		// valset-pref's DelegateBondedTokens stakes the uosmo it unlocks
+		sp.BondDenom = "uosmo"
+		if err := h.App.StakingKeeper.SetParams(h.Ctx, sp); err != nil {
+			t.Fatalf("staking params: %v", err)
 		}
 		gpools := h.SetupGammPoolsWithBondDenomMultiplier([]osmomath.Dec{osmomath.NewDec(20)})
 		sfDenom := gammtypes.GetPoolShareDenom(gpools[0].GetId())
 		if err := h.App.SuperfluidKeeper.AddNewSuperfluidAsset(h.Ctx, sftypes.SuperfluidAsset{Denom: sfDenom, AssetType: sftypes.SuperfluidAssetTypeLPShare}); err != nil {
 			t.Fatalf("AddNewSuperfluidAsset: %v", err)
 		}
-		val := h.SetupValidator(stakingtypes.Bonded)
-		sp, _ := h.App.StakingKeeper.GetParams(h.Ctx)
-		unbonding := sp.UnbondingTime
 		h.App.IncentivesKeeper.SetLockableDurations(h.Ctx, []time.Duration{time.Hour, 24 * time.Hour, unbonding})
+		// the shares of full-range positions of the CL pool are a superfluid asset as well
+		clDenom := cltypes.GetConcentratedLockupDenomFromPoolId(clPool.GetId())
+		if err := h.App.SuperfluidKeeper.AddNewSuperfluidAsset(h.Ctx, sftypes.SuperfluidAsset{Denom: clDenom, AssetType: sftypes.SuperfluidAssetTypeConcentratedShare}); err != nil {
+			t.Fatalf("AddNewSuperfluidAsset(cl): %v", err)
+		}
+		h.App.SuperfluidKeeper.SetOsmoEquivalentMultiplier(h.Ctx, 1, clDenom, osmomath.NewDec(2))
+		// RESOURCES: real pool shares.  The bank account t0 joins the balancer pool; every user (and the CL pool's
+		// address) gets liquid shares exceeding any lock, so that a non-owner could exit the pool himself
+		big := func(s string) osmomath.Int { v, _ := osmomath.NewIntFromString(s); return v }
+		bondDenom, _ := h.App.StakingKeeper.BondDenom(h.Ctx)
+		h.FundAcc(h.TestAccs[0], sdk.NewCoins(sdk.NewCoin(bondDenom, big("500000000000000000000")), sdk.NewInt64Coin("token0", 2500)))
+		if _, _, err := h.App.GAMMKeeper.JoinPoolNoSwap(h.Ctx, h.TestAccs[0], gpools[0].GetId(), big("20000000000000000000"),
+			sdk.NewCoins(sdk.NewCoin(bondDenom, big("500000000000000000000")), sdk.NewInt64Coin("token0", 2500))); err != nil {
+			t.Fatalf("JoinPoolNoSwap: %v", err)
+		}
+		for _, u := range append(append([]string{}, e.users...), "pool") {
+			if err := h.App.BankKeeper.SendCoins(h.Ctx, h.TestAccs[0], e.acc(u), sdk.NewCoins(sdk.NewCoin(sfDenom, big("2000000000000000000")))); err != nil {
+				t.Fatalf("hand out shares: %v", err)
+			}
+		}
+		lw := &lkWorld{owner: map[uint64]string{}, denom: map[uint64]string{}, sf: map[uint64]bool{}, noOwner: map[uint64]bool{}, val: val.String(), bank: "t0", poolId: gpools[0].GetId()}
+		cw.lk = lw
+		// positions with an underlying lock: a plainly locked one and / or a superfluid-staked one
+		type lockedPos struct {
+			pos, lock uint64
+			owner     string
+			amt       osmomath.Int
+			dur       time.Duration
+			stake     bool
+		}
+		var lps []lockedPos
+		mkLocked := func(dur time.Duration, stake bool) {
+			coins := sdk.NewCoins(sdk.NewInt64Coin("eth", 100000), sdk.NewInt64Coin("usdc", 100000))
+			u := e.users[e.r.Intn(len(e.users))]
+			h.FundAcc(e.acc(u), coins)
+			d, lockId, err := h.App.ConcentratedLiquidityKeeper.CreateFullRangePositionLocked(h.Ctx, clPool.GetId(), e.acc(u), coins, dur)
+			if err != nil {
+				t.Fatalf("CreateFullRangePositionLocked: %v", err)
+			}
+			l, _ := h.App.LockupKeeper.GetLockByID(h.Ctx, lockId)
+			lps = append(lps, lockedPos{d.ID, lockId, u, l.Coins[0].Amount, dur, stake})
+			cw.owner[d.ID] = u
+		}
+		if e.r.Intn(2) == 0 {
+			mkLocked(24*time.Hour, false)
+		}
+		if e.r.Intn(3) != 0 {
+			mkLocked(unbonding, true)
+		}
+		// validator-set preferences (creator messages: they act on the sender's own record only)
+		prefs := append(append([]string{}, e.users...), "pool")
+		prefs = append(prefs, e.modSome...)
+		for i, u := range prefs {
+			if (i == len(e.users)-1 && e.r.Intn(2) == 0) || e.deleg[u] {
+				continue // one user without any preference / delegation
+			}
+			if _, err := e.vpSrv.SetValidatorSetPreference(h.Ctx, &vptypes.MsgSetValidatorSetPreference{Delegator: e.addr(u),
+				Preferences: []vptypes.ValidatorPreference{{ValOperAddress: val.String(), Weight: osmomath.OneDec()}}}); err != nil {
+				t.Fatalf("SetValidatorSetPreference: %v", err)
+			}
+			e.deleg[u] = true
+		}
 
 		// one history in three has a cosmwasm contract that can serve as a before-send hook
 		contracts := "-"
@@ -1410,12 +1985,13 @@ func runAuth(t *testing.T, seed int64, n int, dir string) {
 			tfp.DenomCreationFee = nil
 		}
 		h.App.TokenFactoryKeeper.SetParams(h.Ctx, tfp)
-		lw := &lkWorld{owner: map[uint64]string{}, denom: map[uint64]string{}, sf: map[uint64]bool{}, val: val.String()}
-		switch e.r.Intn(3) {
+		switch e.r.Intn(8) {
 		case 0:
 			lw.allow = []string{e.users[e.r.Intn(len(e.users))]}
-		case 1:
+		case 1, 2, 3:
 			lw.allow = []string{e.users[0], e.users[1], e.users[2]}
+		case 4, 5, 6:
+			lw.allow = append([]string{}, e.users...)
 		}
 		lp := h.App.LockupKeeper.GetParams(h.Ctx)
 		lp.ForceUnlockAllowedAddresses = nil
@@ -1453,10 +2029,44 @@ func runAuth(t *testing.T, seed int64, n int, dir string) {
 		e.base = nil
 		e.o.Count("histories")
 
+		for _, u := range prefs {
+			if e.deleg[u] {
+				e.o.Emit("auth vp.set "+u, "ok", false)
+				e.deleg[u] = false // (announced once: modSome may list an account twice)
+			}
+		}
+		for _, u := range prefs {
+			if _, ok := h.App.ValidatorSetPreferenceKeeper.GetValidatorSetPreference(h.Ctx, e.addr(u)); ok {
+				e.deleg[u] = true
+			}
+		}
+		for _, g := range gms {
+			e.o.Emit(fmt.Sprintf("auth gm.pool %d %s", g.id, g.controller), "ok", false)
+		}
+		if e.r.Intn(2) == 0 {
+			h.App.SuperfluidKeeper.SetUnpoolAllowedPools(h.Ctx, []uint64{gpools[0].GetId()})
+			e.base = nil
+			e.o.Emit(fmt.Sprintf("auth sf.unpoolallow %d", gpools[0].GetId()), "ok", false)
+			e.o.Count("histories.unpool-allowed")
+		}
 		e.tfPhase()
+		e.gmPhase(gms, gpools[0].GetId())
 		e.clRegister(cw, 1, "t0", clPool.GetId(), false)
-		if lockedPos != 0 {
-			e.clRegister(cw, lockedPos, cw.owner[lockedPos], clPool.GetId(), true)
+		for _, lp := range lps {
+			// the underlying lock first, then the position that points to it
+			lw.owner[lp.lock], lw.denom[lp.lock], lw.sf[lp.lock], lw.noOwner[lp.lock] = lp.owner, clDenom, true, true
+			lw.ids = append(lw.ids, lp.lock)
+			e.o.Emit(fmt.Sprintf("auth lk.newk %d %s %s %d 1 %s", lp.lock, lp.owner, lp.amt, int64(lp.dur/time.Second), denomKind(clDenom)), "ok", false)
+			cw.pool[lp.pos] = clPool.GetId()
+			cw.ids = append(cw.ids, lp.pos)
+			cw.lockOf[lp.pos] = lp.lock
+			e.o.Emit(fmt.Sprintf("auth cl.newl %d %s %d %d", lp.pos, lp.owner, clPool.GetId(), lp.lock), "ok", false)
+			if lp.stake {
+				e.drive(lw, lp.lock, "sf.delegate")
+				e.o.Count("positions.sf-staked")
+			} else {
+				e.o.Count("positions.locked")
+			}
 		}
 		e.clPhase(cw, pools)
 		e.o.Emit(fmt.Sprintf("auth lk.last %d", h.App.LockupKeeper.GetLastLockID(h.Ctx)), "ok", false)
